@@ -11,7 +11,8 @@ import Lumina.Gen.C32
 
 namespace Lumina.Props.C32
 open Lumina.Model.Retry Lumina.Proofs.Retry
-open Lumina.Spec.C32 (specSends specAnswers specScheduleProgress specStopProgress)
+open Lumina.Spec.C32 (specSends specAnswers specScheduleProgress specStopProgress specOutcomeAnswers
+  specRequestAnswers specStopAnswers specQuietStep)
 
 /-- "three" is `MAX_TRIES` -/
 theorem consts_eq : Lumina.Gen.C32.MAX_TRIES = 3 ∧ Lumina.Gen.C32.MAX_TRIES = MAX_TRIES := by decide
@@ -73,6 +74,27 @@ theorem bounded_progress (evs : List Ev) (r : Rec) (hr : r ∈ (run evs).1.recs)
 theorem stop_progress (evs : List Ev) :
     specStopProgress (knownFor (run evs).1 .stop) ((step (run evs).1 .stop).2.filterMap answeredOf) = true :=
   stop_progress_spec _ (run_inv evs)
+
+/-- **the first valid response or the final error**, for every history: when an outcome arrives, the answers
+    given in that step are exactly — that outcome, to that caller, if it is for the outstanding attempt of a
+    request whose caller is still there and it is a valid response or the third attempt failed; nothing for a
+    stale or duplicated outcome, a retried error or a caller that went away -/
+theorem outcome_answers (evs : List Ev) (id att : Nat) (res : Res) :
+    specOutcomeAnswers (knownFor (run evs).1 (.outcome id att res)) id
+      (match (run evs).1.recs.find? (fun r => r.id == id) with | some r => att == r.sends | none => false)
+      (resKind res) ((step (run evs).1 (.outcome id att res)).2.filterMap answerPairOf) = true :=
+  outcome_answers_spec _ id att res (run_inv evs)
+
+/-- what callers are told in the other steps: a new request is answered at once only after stop (cancelled)
+    or when invalid; at stop every answer is `RequestCancelled`; scheduling and a caller going away answer nobody -/
+theorem other_answers (evs : List Ev) :
+    (∀ v, specRequestAnswers (run evs).1.recs.length (run evs).1.stopped v
+        ((step (run evs).1 (.request v)).2.filterMap answerPairOf) = true) ∧
+    specStopAnswers ((step (run evs).1 .stop).2.filterMap answerPairOf) = true ∧
+    (∀ p c, specQuietStep ((step (run evs).1 (.schedule p c)).2.filterMap answerPairOf) = true) ∧
+    (∀ i, specQuietStep ((step (run evs).1 (.close i)).2.filterMap answerPairOf) = true) :=
+  ⟨fun v => request_answers_spec _ v, stop_answers_spec _,
+   fun p c => quiet_steps_spec _ _ (Or.inl ⟨p, c, rfl⟩), fun i => quiet_steps_spec _ _ (Or.inr ⟨i, rfl⟩)⟩
 
 /-- a valid response is the answer: the first `ok` outcome of the outstanding attempt is delivered as is -/
 theorem first_valid_response_is_the_answer (r : Rec) (hp : r.phase = .inflight) (hc : r.closed = false) :
